@@ -155,7 +155,7 @@ func c12GetSTH(r *Run) {
 			})
 			// the signature field is what tls.Unmarshal decoded (through a local, or in place)
 			r.ExpectArg(um[0], "ToSignedTreeHead:signature.source", 0, "p0.TreeHeadSignature")
-			r.ExpectDecodedField(tf, "ToSignedTreeHead:signature.target", "ToSignedTreeHead:sth.TreeHeadSignature", ret.Results[0], "TreeHeadSignature", um[0], 1, "ct.DigitallySigned")
+			c04DecodedField(r, tf, "ToSignedTreeHead:signature.target", "ToSignedTreeHead:sth.TreeHeadSignature", ret.Results[0], "TreeHeadSignature", um[0], 1, "ct.DigitallySigned")
 			// the root hash of the STH holds the bytes of the response's root: copied into the array,
 			// or the array is set as a whole to the response's slice converted to an array
 			if len(CallsTo(tf, "copy")) == 0 && len(writesIntoField(tf, a, "SHA256RootHash")) > 0 {
@@ -164,7 +164,9 @@ func c12GetSTH(r *Run) {
 			}
 			cp := r.OneCall(tf, "ToSignedTreeHead:root-copy", "copy")
 			if cp != nil {
-				r.ExpectArg(cp, "ToSignedTreeHead:root-copy.dst", 0, r.D.allocName(a)+".SHA256RootHash[:]")
+				// the bytes copied end up in the STH's root-hash array: copied into it, or into a whole zero
+				// local whose value is then stored there (the fact C04.R6 ToSTH:root.dst decides)
+				c04CopyDst(r, tf, "ToSignedTreeHead:root-copy.dst", cp, r.D.allocName(a), "SHA256RootHash")
 				r.ExpectArg(cp, "ToSignedTreeHead:root-copy.src", 1, "p0.SHA256RootHash")
 			}
 		}
